@@ -39,6 +39,8 @@ import subprocess as _real_subprocess
 import tempfile
 import types
 
+SOLVER_WALL_CAP_S = 120
+
 FAULT_KINDS = [
     "exe_missing", "exit_before", "killed_before", "exit_after", "killed_after", "sol_missing", "sol_empty",
     "sol_torn", "sol_stale", "sol_header", "sol_noise", "sol_perturb", "sol_scale", "sol_set", "sol_drop_row", "relax_lp", "stop_nodes0",
@@ -106,7 +108,20 @@ class _SimPopen(object):
             shutil.rmtree(os.path.dirname(sol), ignore_errors=True)
             self.rec["fired"] = True
         p = _real_subprocess.Popen(self.args, **self.kw)
-        rc = p.wait()
+        try:
+            rc = p.wait(timeout=SOLVER_WALL_CAP_S)
+        except _real_subprocess.TimeoutExpired:
+            # a solver that does not come back is killed by the operator (the simulator): to chempy this is a
+            # solver process that died (-9).  Healthy instances take milliseconds to a few seconds.
+            p.kill()
+            p.wait()
+            rc = -9
+            self.rec["fired"] = True
+            self.rec["solver_hung_killed"] = True
+        except BaseException:
+            p.kill()  # the run's wall cap fired while the solver was running: do not leave it behind
+            p.wait()
+            raise
         self.rec["rc"] = rc
         data = None
         if sol and os.path.exists(sol):
